@@ -48,6 +48,12 @@ type Segment struct {
 	// ManyTags: the host passes this many additional tags (x0000, x0001, ...): wide points, around
 	// sizes where limits and container growth live
 	ManyTags int `json:"many_tags,omitempty"`
+	// Reuse: the host initialises the point object of the previous segment again without handing it
+	// back to the pool in between (a batch loop that keeps one point). InitPt on a live point must
+	// behave like InitPt on a fresh one; the solo reference always takes a fresh point.
+	Reuse bool `json:"reuse,omitempty"`
+	// Own: the host's point is a plain &Point{} of its own, never taken from or handed to the pool
+	Own bool `json:"own,omitempty"`
 }
 
 type Workload struct {
@@ -168,6 +174,12 @@ func (Prop) Generate(seed uint64, tier string) *core.Plan {
 				sg.Sparse = 1 + r.Intn(sparse)
 			}
 			sg.NoTags = r.Intn(4) == 0
+			switch r.Intn(10) {
+			case 0:
+				sg.Reuse = s > 0
+			case 1:
+				sg.Own = true
+			}
 			if r.Intn(24) == 0 {
 				sg.ManyTags = []int{7, 8, 63, 64, 127, 128, 255, 256, 257, 300, 1024}[r.Intn(11)]
 				sg.NoTags = false
@@ -506,12 +518,22 @@ type loaded struct {
 	scripts []*runtime.Script // per segment
 }
 
-func (t *taskRun) run(ld []*runtime.Script, base int, when func() (tm input.Point)) {
+func (t *taskRun) run(ld []*runtime.Script, base int, pristine bool) {
+	var live *input.Point // the previous segment's point when the host keeps it
 	for si := range t.segs {
 		sg := &t.segs[si]
 		t.cur = sg
 		t.sig = &hostSig{}
-		pt := input.GetPoint()
+		var pt *input.Point
+		switch {
+		case !pristine && sg.Reuse && live != nil:
+			pt = live
+		case !pristine && sg.Own:
+			pt = &input.Point{}
+		default:
+			pt = input.GetPoint()
+		}
+		live = nil
 		t.curPt = pt
 		tags := map[string]string{"t1": "tv"}
 		if sg.NoTags {
@@ -534,7 +556,13 @@ func (t *taskRun) run(ld []*runtime.Script, base int, when func() (tm input.Poin
 			t.fail("invariant", cls, detail, -1)
 		}
 		t.obs = append(t.obs, "END "+snapshot(pt))
-		input.PutPoint(pt)
+		switch {
+		case !pristine && si+1 < len(t.segs) && t.segs[si+1].Reuse:
+			live = pt // kept by the host, initialised again by the next segment
+		case !pristine && sg.Own:
+		default:
+			input.PutPoint(pt)
+		}
 		t.curPt = nil
 	}
 }
@@ -574,7 +602,7 @@ func execute(p *core.Plan, w *Workload, pristine bool, res *core.Result) ([]*tas
 		t := &taskRun{id: ti, segs: segs}
 		tasks[ti] = t
 		b := base
-		fns = append(fns, func() { t.run(ld, b, nil) })
+		fns = append(fns, func() { t.run(ld, b, pristine) })
 		base += len(segs)
 	}
 	if pristine {
